@@ -249,6 +249,150 @@ def _replay_once(py7zr, img, entries, datas, names, CB, log, slow):
     return False, "event stream well-formed"
 
 
+def one_reporter(seq):
+    """call sequences with callbacks in ONE read session: a reporter thread is only started when no earlier one still listens
+    to the session's queue (otherwise two threads take items from one queue: events go to the wrong callback, and the single
+    sentinel close() posts ends only one of them)"""
+    r = ObResult(bounds="archive ff/2, session %r (A = extractall with a callback, E = extract of the last member with a "
+                        "callback, R = reset); sizes symbolic; thread and queue are recording stand-ins" % seq)
+    eng = RC.mk_engine(unroll=1)
+    sym = RC.symbols(eng, "ff")
+    log = []
+    threads = []
+
+    class Th(Native):
+        def __init__(self, target=None, args=(), daemon=None):
+            self.alive = False
+
+        def start(self, eng_):
+            self.alive = True
+            threads.append(self)
+            log.append(("start", self))
+
+        def join(self, eng_, timeout=None):
+            log.append(("join", self))
+
+        def is_alive(self, eng_):
+            return self.alive
+
+    def harness(e):
+        del log[:]
+        del threads[:]
+        entries, layout = RC.build(e, "ff", [2], {}, sym)
+        z, fp, w = X.setup_read(e, entries, layout, consume="all-at-once")
+        e.models.reg(threading.Thread, lambda e_, **k: Th(**k))
+        q = z.attrs["q"]
+        live_at_start = []
+        orig_put = q.put
+
+        class QLog(Native):
+            """the session's queue: a sentinel ends the reporter that was started first among the live ones"""
+
+            def put(self, eng_, item, *a, **k):
+                log.append(("put", item))
+                if item is None:
+                    for t_ in threads:      # the sentinel ends the reporter that has been listening longest
+                        if t_.alive:
+                            t_.alive = False
+                            break
+
+            def put_nowait(self, eng_, item):
+                self.put(eng_, item)
+
+        z.attrs["q"] = QLog()
+        for op in seq:
+            try:
+                if op == "A":
+                    e.method(z, "extractall", callback=_Callback(), factory=X.StubFactory(w))
+                elif op == "E":
+                    e.method(z, "extract", None, [entries[1]["name"]], callback=_Callback(), factory=X.StubFactory(w))
+                else:
+                    e.method(z, "reset")
+            except ModelRaise as ex:
+                return dict(exc=ex.name + str(ex.eargs)[:60])
+        # replay the log: how many reporters listen when a new one starts?
+        live, worst = 0, 0
+        for kind, x in log:
+            if kind == "start":
+                worst = max(worst, live)
+                live += 1
+            elif kind == "put" and x is None and live > 0:
+                live -= 1
+        return dict(worst=worst, starts=sum(1 for k_, _ in log if k_ == "start"))
+
+    def post(o):
+        if "exc" in o:
+            return False
+        return [o["worst"] == 0]
+
+    decide(eng, harness, post, RC.inputs_of(sym, "ff", [2]), r, describe=lambda o: o.get("exc") or "%d reporter threads started, %d already listening at a start" % (o["starts"], o["worst"]))
+    _cex(r, "one_reporter", lambda w_: dict(module="vf.props.c18", func="replay_one_reporter", kwargs=dict(seq=seq)),
+         signature=lambda w_: {"obligation": "one_reporter"})
+    return r
+
+
+def replay_one_reporter(seq):
+    """the real thing: the same calls, then close(); every callback must have seen a complete account of ITS extraction"""
+    import io
+    import threading as th
+
+    import py7zr
+    from py7zr.callbacks import ExtractCallback
+    from py7zr.io import NullIOFactory
+
+    class CB(ExtractCallback):
+        def __init__(self):
+            self.ev = []
+
+        def report_start_preparation(self):
+            self.ev.append("pre")
+
+        def report_start(self, p, b):
+            self.ev.append("s")
+
+        def report_update(self, b):
+            self.ev.append("u")
+
+        def report_end(self, p, b):
+            self.ev.append("e")
+
+        def report_postprocess(self):
+            self.ev.append("post")
+
+        def report_warning(self, m):
+            self.ev.append("w")
+
+    buf = io.BytesIO()
+    with py7zr.SevenZipFile(buf, "w", filters=[{"id": py7zr.FILTER_COPY}]) as z:
+        for i in range(2):
+            z.writestr(b"x" * 50, "m%d" % i)
+    for trial in range(10):
+        buf.seek(0)
+        z = py7zr.SevenZipFile(buf)
+        cbs = []
+        before = th.active_count()
+        for op in seq:
+            if op == "R":
+                z.reset()
+                continue
+            cb = CB()
+            cbs.append((op, cb))
+            if op == "A":
+                z.extractall(factory=NullIOFactory(), callback=cb)
+            else:
+                z.extract(targets=["m1"], factory=NullIOFactory(), callback=cb)
+        try:
+            z.close()
+        except Exception as e:  # noqa
+            return True, "after %r close() raised %r" % (seq, e)
+        for op, cb in cbs:
+            # (a member that is only decoded on the way to a selected one is reported as well: 1 or 2 members for E)
+            ok_n = cb.ev.count("s") == cb.ev.count("e") and (cb.ev.count("s") == 2 if op == "A" else cb.ev.count("s") in (1, 2))
+            if cb.ev[:1] != ["pre"] or cb.ev[-1:] != ["post"] or not ok_n:
+                return True, "after %r a callback of %s saw %s" % (seq, op, cb.ev)
+    return False, "every callback saw the complete account of its own extraction, close() returned"
+
+
 def reporter_dispatch():
     """the real reporter() loop on a recorded queue: each item kind reaches the right callback method, in order; stops at
     the sentinel; queue.Empty timeouts (symbolic) change nothing; close() posts the sentinel and joins"""
@@ -349,6 +493,8 @@ def replay_reporter():
 def units(tier):
     M = "vf.props.c18"
     us = [Unit("reporter_dispatch", M, "reporter_dispatch", {}, 600)]
+    for sq in (["A", "ARA", "ARE"] if tier == "quick" else ["A", "E", "ARA", "ARE", "ERA", "ARARA"]):
+        us.append(Unit("one_reporter[%s]" % sq, M, "one_reporter", dict(seq=sq), 900))
     shapes = [("ff", [2], {}), ("ff", [1, 1], {}), ("fdf", [2], {}), ("fef", [1, 1], {"emptyfile_vector": True})]
     if tier == "thorough":
         shapes += [("fff", [2, 1], {}), ("fdff", [2, 1], {})]
